@@ -97,6 +97,8 @@ def np_index(spec):
         if how == "list" and spec["v"]:
             return [int(x) for x in spec["v"]]
         return np.array(spec["v"], dtype=np.int32 if how == "int32" else np.int64)
+    if t == "range":
+        return range(*spec["v"])
     if t == "ell":
         return Ellipsis
     raise AssertionError(t)
@@ -561,6 +563,15 @@ def gen_1d(rng, L, allow_dup, faulty):
         return {"t": "slice", "v": [rng.choice([None, 0, 1, -1, -2, L // 2, rng.randint(-L - 2, L + 2)]),
                                     rng.choice([None, L, -1, 0, L // 2, rng.randint(-L - 2, L + 2)]),
                                     rng.choice([None, 1, 2, 3, -1, -2])]}
+    if r < 0.50:
+        # a range object: numpy takes it like the index array of its elements (negative elements count from the end)
+        start = rng.randint(-L, L - 1) if L else 0
+        stop = rng.randint(-L - 1, L) if L else 0
+        step = rng.choice([1, 1, 2, -1, -1, -2])
+        if faulty and rng.random() < 0.15:
+            stop = L + 3
+            step = 1
+        return {"t": "range", "v": [start, stop, step]}
     if r < 0.65:
         v = [rng.random() < 0.6 for _ in range(L)]
         if faulty and rng.random() < 0.15:
